@@ -27,8 +27,10 @@ def gen_definition(r, idx):
         if k < 0.6:
             et = r.choice(["string", "number", "stringlist", ["string", "stringlist"]])
             ex = {"type": et}
-            if et == "string" and r.random() < 0.4:
-                ex["values"] = ['"v1"', '"v2"']
+            if et == "string" and r.random() < 0.5:
+                ex["values"] = r.choice([['"v1"', '"v2"'], ['"High"', '"Low"'], ['"UPPER"'], ['"MiXed Case"', '"v1"']])     # compared exactly, case included
+            if et == "number" and r.random() < 0.4:
+                ex["values"] = r.choice([["1K", "1M"], ["10", "20"], ["5G"]])
             if nv == 2 and r.random() < 0.5:
                 ex["valid_for"] = [vals[0]]
             if r.random() < 0.3:
